@@ -73,8 +73,8 @@ Ltac inv_bind H :=
   apply bind_ok in H; destruct H as [a [E H]].
 Ltac inv_ok H :=
   match type of H with
-  | Ok ?x = Ok ?y => let E := fresh "Eq" in assert (E : x = y) by (injection H; intro; assumption); clear H; try subst y; try subst x
-  | Some ?x = Some ?y => let E := fresh "Eq" in assert (E : x = y) by (injection H; intro; assumption); clear H; try subst y; try subst x
+  | Ok ?x = Ok ?y => let E := fresh "Eq" in assert (E : x = y) by congruence; clear H; try subst y; try subst x
+  | Some ?x = Some ?y => let E := fresh "Eq" in assert (E : x = y) by congruence; clear H; try subst y; try subst x
   end.
 
 Lemma JElems_nonempty es : JElems es -> es <> [].
